@@ -612,4 +612,3 @@ func (sc *SpecCtx) expiredAt(err Val) Val {
 	tt, tv := sc.st.asTarget(err.C[0], err.C[1])
 	return Val{T: tInt64, C: []string{sc.st.expAtOf(sc.cur, tt, tv)}}
 }
-
